@@ -346,6 +346,11 @@ Definition run_case' (e : sexp) : str :=
                        kv "npages" (nat_str (length (observed_pages pd)))])
                   | None => line [kv "id" id; kv "bad" (s2l "extra")]
                   end
+                else if str_eqb mode (s2l "c16") then
+                  match dList (dPair dBool (dPair dZ dZ)) extra with
+                  | Some truth => run_simple (fun d pd => check_c16 d pd truth) id d impl
+                  | None => line [kv "id" id; kv "bad" (s2l "extra")]
+                  end
                 else if str_eqb mode (s2l "c08") then
                   match dList dBool extra with
                   | Some inh => run_simple (fun d pd => check_c08 d pd inh) id d impl
